@@ -1,5 +1,5 @@
 (* EncodeProofs.v — C02 / C09, the bit-level part: what the generated encoder writes, field by field. *)
-From NV Require Import Base Bits Defn PyNum Fields Dispatch Template TemplateEnc Encode SpecProofs.
+From NV Require Import Base Bits Defn PyNum Fields Dispatch Template TemplateEnc Encode Spec SpecProofs.
 
 Section Enc.
   Variable LE : enc_lookups.
@@ -75,16 +75,16 @@ Theorem encoded_bits_local vs ws i :
                  snd (fst a) <= i < snd (fst a) + snd a -> fst (fst a) = fst (fst b)) ->
   Z.testbit (fold_left put_fld vs 0) i = Z.testbit (fold_left put_fld ws 0) i.
 Proof.
-  intros Wv Ww Hi L S. rewrite !fold_put_fld, !testbit_fold by assumption.
+  intros Wv Ww Hi L HS. rewrite !fold_put_fld, !testbit_fold by assumption.
   rewrite Z.bits_0. simpl orb.
-  revert ws Ww L S. induction vs as [|[[v o] l] vs IH]; intros [|[[w o'] l'] ws] Ww L S; simpl in L; try discriminate; [reflexivity|].
+  revert ws Ww L HS. induction vs as [|[[v o] l] vs IH]; intros [|[[w o'] l'] ws] Ww L HS; simpl in L; try discriminate; [reflexivity|].
   inversion L; subst o' l'. clear L. cbn [existsb].
   inversion Wv as [|? ? Wa Wv']; subst. inversion Ww as [|? ? Wb Ww']; subst.
   f_equal.
   - destruct ((o <=? i) && (i <? o + l)) eqn:R; [|reflexivity]. simpl.
     apply andb_true_iff in R. destruct R as [R1 R2]. apply Z.leb_le in R1. apply Z.ltb_lt in R2.
-    rewrite (S 0%nat (v, o, l) (w, o, l) eq_refl eq_refl); [reflexivity | simpl; lia].
-  - apply IH; try assumption. intros n a b Ha Hb. apply (S (S n) a b); assumption.
+    assert (v = w) by (apply (HS 0%nat (v, o, l) (w, o, l) eq_refl eq_refl); simpl; lia). subst w. reflexivity.
+  - apply IH; try assumption. intros n a b Ha Hb. apply (HS (Datatypes.S n) a b); assumption.
 Qed.
 
 (* a message that lacks a field the definition lists is never encoded *)
@@ -118,31 +118,34 @@ Proof.
   split; [destruct signed; lia | reflexivity].
 Qed.
 
-(* the encoded number, read back with sign extension, is the rounded quotient itself *)
-Theorem encode_num_reads_back v len signed res z : 1 <= len ->
+(* the encoded number, read back by the decoder's sign extension, is the rounded quotient itself
+   and is never mistaken for "not available" *)
+Definition rounded_quotient (v res : pynum) : result Z :=
+  do q <- py_div v res; match q with PF f => py_round f | PI k => Ok k end.
+
+Theorem encode_num_reads_back v len signed res z : 1 <= len -> (signed = true -> 4 <= len) ->
   encode_num v len signed res = Ok z ->
-  0 <= z < 2 ^ len /\
-  exists n, sign_extend signed len z = n /\ not_available signed len n = false \/ (len <= 3 /\ signed = false /\ False) \/
-            (signed = true /\ len <= 3).
+  exists n, rounded_quotient v res = Ok n /\ 0 <= z < 2 ^ len /\
+            sign_extend signed len z = n /\ not_available signed len n = false.
 Proof.
-  intros Hl H. destruct (encode_num_inv _ _ _ _ _ H) as [q [n [_ [_ [B ->]]]]].
+  intros Hl Hs H. destruct (encode_num_inv _ _ _ _ _ H) as [q [n [Q [R [B ->]]]]].
+  exists n. split; [unfold rounded_quotient; rewrite Q; exact R|].
   rewrite !shiftl1 in * by lia.
   assert (P : 2 ^ len = 2 * 2 ^ (len - 1)).
   { replace len with ((len - 1) + 1) at 1 by lia. rewrite Z.pow_add_r by lia. lia. }
   assert (P1 : 0 < 2 ^ (len - 1)) by (apply Z.pow_pos_nonneg; lia).
   destruct signed.
-  - destruct (Z.ltb_spec n 0); simpl.
-    + split; [lia|]. destruct (Z.leb_spec len 3); [exists 0; right; right; split; [reflexivity | assumption]|].
-      exists n. left. split.
+  - specialize (Hs eq_refl).
+    destruct (Z.ltb_spec n 0); simpl.
+    + split; [lia|]. split.
       * rewrite sign_extend_spec by lia. unfold spec_signed. simpl.
         destruct (Z.leb_spec (2 ^ (len - 1)) (2 ^ len + n)); lia.
       * unfold not_available. destruct (Z.leb_spec len 3); [lia|]. rewrite shiftl1 by lia. apply Z.eqb_neq. lia.
-    + split; [lia|]. destruct (Z.leb_spec len 3); [exists 0; right; right; split; [reflexivity | assumption]|].
-      exists n. left. split.
+    + split; [lia|]. split.
       * rewrite sign_extend_spec by lia. unfold spec_signed. simpl.
         destruct (Z.leb_spec (2 ^ (len - 1)) n); lia.
       * unfold not_available. destruct (Z.leb_spec len 3); [lia|]. rewrite shiftl1 by lia. apply Z.eqb_neq. lia.
-  - simpl. split; [lia|]. exists n. left. split.
+  - simpl. split; [lia|]. split.
     + unfold sign_extend. reflexivity.
     + unfold not_available. rewrite !shiftl1 by lia. destruct (len <=? 3); apply Z.eqb_neq; lia.
 Qed.
@@ -166,4 +169,148 @@ Proof.
       destruct (Z.leb_spec len 3); [lia|]. rewrite shiftl1 by lia. apply Z.eqb_refl.
     + unfold sign_extend, not_available. simpl. destruct (Z.leb_spec len 3); [lia|].
       rewrite shiftl1 by lia. apply Z.eqb_refl.
+Qed.
+
+(* ---------- pairwise disjoint layouts (boolean, checked on the tables) ---------- *)
+Definition disj_b (a b : fld) : bool :=
+  let '(_, o1, l1) := a in let '(_, o2, l2) := b in (o1 + l1 <=? o2) || (o2 + l2 <=? o1).
+Fixpoint pairwise_disj (l : list fld) : bool :=
+  match l with [] => true | x :: t => forallb (disj_b x) t && pairwise_disj t end.
+
+Lemma disj_b_sound a b : disj_b a b = true -> disj a b.
+Proof.
+  destruct a as [[v1 o1] l1], b as [[v2 o2] l2]. simpl. intros H.
+  apply orb_true_iff in H. destruct H as [H|H]; apply Z.leb_le in H; [left|right]; exact H.
+Qed.
+Lemma disj_sym a b : disj a b -> disj b a.
+Proof. destruct a as [[v1 o1] l1], b as [[v2 o2] l2]. simpl. tauto. Qed.
+
+Lemma pairwise_sound l : pairwise_disj l = true ->
+  forall x, In x l -> forall g, In g l -> g = x \/ disj x g.
+Proof.
+  induction l as [|a l IH]; intros P x Hx g Hg; [destruct Hx|].
+  simpl in P. apply andb_true_iff in P. destruct P as [Pa P]. rewrite forallb_forall in Pa.
+  destruct Hx as [->|Hx], Hg as [->|Hg].
+  - left; reflexivity.
+  - right. apply disj_b_sound. apply Pa. exact Hg.
+  - right. apply disj_sym. apply disj_b_sound. apply Pa. exact Hx.
+  - apply IH; assumption.
+Qed.
+
+(* C02/C09 at the payload level: every field the encoder wrote reads back as written (mod 2^len) *)
+Theorem encoder_fields_read_back LE fs steps mf x :
+  esteps_of fs = Some steps ->
+  forallb (fun st => match st with EField _ _ _ _ => true | _ => false end) steps = true ->
+  forallb (fun f => match f_bitlen f with Some l => 0 <=? l | None => false end) fs = true ->
+  run_esteps LE 0 steps mf = Ok x ->
+  exists vs, enc_vals LE fs mf = Ok vs /\ x = fold_left put_fld vs 0 /\
+    (Forall fwf vs -> pairwise_disj vs = true ->
+     forall v off len, In (v, off, len) vs -> decode_int x off len = v mod 2 ^ len).
+Proof.
+  intros E A W R. rewrite (run_esteps_vals LE fs steps mf 0 E A W) in R.
+  destruct (enc_vals LE fs mf) as [vs|e|]; cbn [bind] in R; try discriminate.
+  inversion R; subst. exists vs. split; [reflexivity|]. split; [reflexivity|].
+  intros Wf P v off len Hin. apply encoded_field_reads_back; [exact Wf | exact Hin |].
+  apply pairwise_sound; assumption.
+Qed.
+
+(* ---------- from the database layout to the premises above ---------- *)
+Definition db_layout (fs : list dbfield) : list (Z * Z) :=
+  flat_map (fun f => match f_bitoff f, f_bitlen f with Some o, Some l => [(o, l)] | _, _ => [] end) fs.
+Definition layout_of (vs : list fld) : list (Z * Z) := map (fun x => (snd (fst x), snd x)) vs.
+
+Lemma enc_vals_layout LE : forall fs mf vs, enc_vals LE fs mf = Ok vs -> layout_of vs = db_layout fs.
+Proof.
+  induction fs as [|f fs IH]; intros mf vs H; simpl in H.
+  - inversion H; reflexivity.
+  - unfold db_layout. simpl. fold (db_layout fs).
+    destruct (f_bitlen f) as [len|]; [|discriminate]. destruct (f_bitoff f) as [off|]; [|discriminate].
+    destruct (ekind_of f len) as [[k|]|]; try discriminate.
+    destruct (get_field (field_id f) mf) as [x|]; [|discriminate].
+    destruct (field_value LE k x) as [v|e|]; cbn [bind] in H; try discriminate.
+    destruct (enc_vals LE fs mf) as [r|e|] eqn:Er; cbn [bind] in H; try discriminate.
+    inversion H; subst. simpl. f_equal. apply (IH mf r Er).
+Qed.
+
+Definition lay_disj_b (a b : Z * Z) : bool := (fst a + snd a <=? fst b) || (fst b + snd b <=? fst a).
+Fixpoint lay_pairwise (l : list (Z * Z)) : bool :=
+  match l with [] => true | x :: t => forallb (lay_disj_b x) t && lay_pairwise t end.
+Definition lay_wf (l : list (Z * Z)) : bool := forallb (fun x => (0 <=? fst x) && (0 <=? snd x)) l.
+
+Lemma pairwise_of_layout vs : lay_pairwise (layout_of vs) = true -> pairwise_disj vs = true.
+Proof.
+  induction vs as [|[[v o] l] vs IH]; simpl; intros H; [reflexivity|].
+  apply andb_true_iff in H. destruct H as [H1 H2]. apply andb_true_iff. split; [|apply IH; exact H2].
+  apply forallb_forall. intros [[v' o'] l'] Hin. rewrite forallb_forall in H1.
+  specialize (H1 (o', l')). simpl in H1. apply H1. unfold layout_of.
+  change (o', l') with ((fun x : fld => (snd (fst x), snd x)) (v', o', l')). apply in_map. exact Hin.
+Qed.
+Lemma wf_of_layout vs : lay_wf (layout_of vs) = true -> Forall fwf vs.
+Proof.
+  induction vs as [|[[v o] l] vs IH]; simpl; intros H; constructor.
+  - apply andb_true_iff in H. destruct H as [H _]. apply andb_true_iff in H. destruct H as [A B].
+    apply Z.leb_le in A, B. simpl. split; assumption.
+  - apply IH. apply andb_true_iff in H. tauto.
+Qed.
+
+(* the layout side conditions of a database definition *)
+Definition layout_ok (d : dbdef) : bool :=
+  lay_wf (db_layout (d_fields d)) && lay_pairwise (db_layout (d_fields d))
+  && forallb (fun f => match f_bitlen f with Some l => 1 <=? l | None => false end) (d_fields d)
+  && match d_length d with
+     | Some n => forallb (fun x => fst x + snd x <=? 8 * n) (db_layout (d_fields d))
+     | None => true
+     end.
+
+Lemma ekind_eqb_eq a b : ekind_eqb a b = true -> a = b.
+Proof.
+  destruct a, b; simpl; intros H; try discriminate; try reflexivity; split_andb H; eqb_to_eq; subst;
+    try reflexivity; try (apply Z.eqb_eq in H; congruence).
+Qed.
+Lemma estep_eqb_eq a b : estep_eqb a b = true -> a = b.
+Proof.
+  destruct a, b; simpl; intros H; try discriminate; try reflexivity.
+  - split_andb H. eqb_to_eq.
+    repeat match goal with Hk : ekind_eqb _ _ = true |- _ => apply ekind_eqb_eq in Hk end. subst. reflexivity.
+  - apply Z.eqb_eq in H. congruence.
+Qed.
+Lemma estep_eqb_refl a : estep_eqb a a = true.
+Proof.
+  destruct a as [i k m s| |i]; simpl; rewrite ?Z.eqb_refl; try reflexivity.
+  assert (ekind_eqb k k = true).
+  { destruct k; simpl; rewrite ?Z.eqb_refl, ?eqb_reflx; try reflexivity;
+      match goal with |- context [num_eqb ?n ?n] => destruct n; simpl; rewrite Z.eqb_refl; reflexivity end. }
+  rewrite H. reflexivity.
+Qed.
+Lemma edef_eqb_eq a b : edef_eqb a b = true -> a = b.
+Proof.
+  unfold edef_eqb. intros H. apply andb_true_iff in H. destruct H as [H1 H2]. apply oz_eqb_eq in H2.
+  assert (e_steps a = e_steps b).
+  { apply (list_eqb_eq estep_eqb); [|exact H1]. intros x y. split; [apply estep_eqb_eq | intros ->; apply estep_eqb_refl]. }
+  destruct a, b; simpl in *; congruence.
+Qed.
+
+(* C02/C09, bits: for an encodable definition whose translated encoder passes the table check and whose
+   layout is disjoint, whatever message is encoded, every field reads back from the produced integer
+   as the value the field conversion produced (mod 2^len) *)
+Theorem edef_ok_sound code_enc LE g d :
+  edef_ok code_enc g d = true -> encodable d = true -> layout_ok d = true ->
+  exists ce, find_fname (fname_of g d) code_enc = Some ce /\ e_length ce = d_length d /\
+    forall mf x, run_esteps LE 0 (e_steps ce) mf = Ok x ->
+      exists vs, enc_vals LE (d_fields d) mf = Ok vs /\ layout_of vs = db_layout (d_fields d) /\
+        forall v off len, In (v, off, len) vs -> decode_int x off len = v mod 2 ^ len.
+Proof.
+  unfold edef_ok, encodable, layout_ok, edef_of_db. intros H En Lo.
+  destruct (find_fname (fname_of g d) code_enc) as [ce|]; [|discriminate].
+  destruct (esteps_of (d_fields d)) as [steps|] eqn:Es; [|discriminate].
+  apply edef_eqb_eq in H. subst ce. exists (mkE steps (d_length d)). split; [reflexivity|]. split; [reflexivity|].
+  cbn [e_steps]. intros mf x R.
+  apply andb_true_iff in Lo. destruct Lo as [Lo _]. apply andb_true_iff in Lo. destruct Lo as [Lo L1].
+  apply andb_true_iff in Lo. destruct Lo as [Lw Lp].
+  assert (W : forallb (fun f => match f_bitlen f with Some l => 0 <=? l | None => false end) (d_fields d) = true).
+  { apply forallb_forall. intros f Hf. rewrite forallb_forall in L1. specialize (L1 f Hf).
+    destruct (f_bitlen f); [|discriminate]. apply Z.leb_le in L1. apply Z.leb_le. lia. }
+  destruct (encoder_fields_read_back LE (d_fields d) steps mf x Es En W R) as [vs [Ev [_ Hrd]]].
+  exists vs. split; [exact Ev|]. pose proof (enc_vals_layout LE _ _ _ Ev) as Lay. split; [exact Lay|].
+  apply Hrd; [apply wf_of_layout | apply pairwise_of_layout]; rewrite Lay; assumption.
 Qed.
